@@ -710,17 +710,20 @@ PROPS = {
         assumptions=["peripheral latency 0; buffers never full; no_signaling_channel; no_desired_connection_parameters"],
     ),
     "C29": dict(
-        theorems=["BluetoeModel.LlControl.ring_reports_first_four",
+        theorems=["BluetoeModel.LlControl.callbacks_well_ordered_partial",
+                  "BluetoeModel.LlControl.ring_reports_first_four",
                   "BluetoeModel.LlControl.ring_empty_between_callbacks",
+                  "BluetoeModel.LlControl.dropped_only_when_ring_full",
                   "BluetoeModel.LlControl.ring_pushes"],
         witnesses=["BluetoeModel.LlControl.overflow_drops_witness",
-                   "BluetoeModel.LlControl.callbacks_well_ordered_witness"],
+                   "BluetoeModel.LlControl.callbacks_well_ordered_witness",
+                   "BluetoeModel.LlControl.early_disconnect_witness"],
         imports=["BluetoeModel.LlControl.PropsC29"],
         run=run_c29,
-        level="partial-proof",
-        technique="Lean 4: event ring lemmas + machine checked counterexample to the full statement; differential correspondence of the exact callback sequences + language monitor on the real link layer",
-        level_text="Proved: the event queue is empty between radio callbacks and reports exactly the first four events pushed during one callback (so nothing is lost or reordered when a callback produces at most four). Proved false: the full statement (witness: LL_VERSION_IND, 2 x LL_REJECT_IND, LL_UNKNOWN_RSP, LL_TERMINATE_IND in one event lose `closed`). NOT proved: the simulation invariant `callbacks_well_ordered_partial` (phase of the link layer = state of the language automaton whenever no callback produced more than four events) — it is checked by the monitor on every sampled history instead.",
-        level_note="known finding C29:ring-overflow:*",
+        level="proof",
+        technique="Lean 4 simulation invariant (link layer state = state of the language automaton over all reported + queued callbacks) over every history, with the two violating situations excluded by name and proved violating by witnesses; differential correspondence of the exact callback sequences + language monitor on the real link layer",
+        level_text="Theorem callbacks_well_ordered_partial: for every history of connects, connection events with arbitrary PDU lists, radio timeouts and API calls on both link layer types, if no radio callback produced more than four lifecycle events (try_push never refused) and disconnect() was not called between `requested` and the first connection event, the reported callbacks are a prefix of (requested (attempt_timeout | established other* closed))* and complete (automaton state = link layer state). The full statement is proved false for exactly these two situations (overflow_drops_witness / callbacks_well_ordered_witness: five events in one callback lose `closed`; early_disconnect_witness: requested, closed without established).",
+        level_note="known findings C29:ring-overflow:*, C29:disconnect-before-established:*; the model's event counter / latency restrictions apply",
         design_ref="§5 C29",
         assumptions=["peripheral latency 0; buffers never full"],
     ),
